@@ -8,6 +8,7 @@ MENUS = {
         ('cancel', ['tA', 'tB', 'tBi', 'tApB', 'ka', 'm_b_bi', 'd_ka_b', 'm_apb_b', 'd_ka_ha', 'ha', 'd_ka_ka'], 6),
         ('noref', ['tA', 'tM', 'tMpA', 'p', 'q', 'ppa', 'qpa', 'm_ppa_a', 'm_qpa_a', 'm_a_qpa', 'd_ppa_qpa'], 8),
         ('badsym', ['tA', 'tB', 'tA2', 'tAB', 'tA2_symdup', 'tAB_symdup', 'ka', 'm_ka_ka', 'm_ka_b', 'm_b_ka'], 6),
+        ('noref2', ['tA', 'tM', 'tMpA', 'p', 'ka', 'ppka', 'ppa', 'd_p_a', 'd_p_ka'], 8),
         ('exp2', ['tA', 'tB', 'tApB', 'tApB2', 'ka', 'cb', 'kapcb2', 'd_ka_cb', 'd_ka_b'], 7),
         ('sameDef', ['tA', 'tA2', 'ka', 'ka2', 'kk', 'd_kk_ka', 'd_ka2_ka', 'm_ka_ka', 'p_ka_2'], 6),
     ],
@@ -84,6 +85,10 @@ def run(ctx):
     # left in the memo, each answer is the specification's (Calc.tla over World.tla)
     import calccheck
     calccheck.run_programs(ctx, memo_programs(ctx), 'memo-orders', sigfn=lambda prog, ev: 'Calc:' + ev['op'])
+    # quotients of money in two non-base currencies along histories of converter updates (every lookup after every
+    # step: whatever an earlier lookup left behind, an update of either currency shows at once)
+    from checks import mconvcheck
+    mconvcheck.run_config(ctx, 'crossmemo', ['y2020', 'none'], ['x2y5', 'x4', 'y5', 'x2', 'y125'], 3 if ctx.tier == 'quick' else 4)
     # long random histories over the whole menu (61 items), replayed on the specification (UnitsTrace.tla)
     from checks import unitstrace
     unitstrace.run(ctx, 250 if ctx.tier == 'quick' else 3000, 30 if ctx.tier == 'quick' else 40)
@@ -93,6 +98,9 @@ def replay(ctx, rp):
     if rp['replay'].get('kind') == 'unitstrace':
         from checks import unitstrace
         return unitstrace.replay(ctx, rp)
+    if rp['replay'].get('kind') == 'RateTable':
+        from checks import mconvcheck
+        return mconvcheck.replay(ctx, rp)
     if rp['replay'].get('kind') == 'calc':
         import calccheck
         return calccheck.replay(ctx, rp, lambda prog, ev: 'Calc:' + ev['op'])
